@@ -206,6 +206,12 @@ theorem callerOnce_reachable : ∀ s, Reachable s → CallerOnce s := by
   · intro s x s' h hst
     obtain ⟨rest, _, rfl⟩ := step_store_some hst
     exact h
+  · intro s ids s' h hst
+    obtain ⟨_, _, rfl⟩ := step_ackLost_some hst
+    exact h
+  · intro s x s' h hst
+    obtain ⟨rest, _, rfl⟩ := step_storeLost_some hst
+    exact h
   · -- rpc_result
     intro s rid v h
     simp only [resStep]
@@ -311,6 +317,12 @@ theorem sentSorted_reachable : ∀ s, Reachable s → SentSorted s := by
   · intro s x s' h hst
     obtain ⟨rest, _, rfl⟩ := step_store_some hst
     exact h
+  · intro s ids s' h hst
+    obtain ⟨_, _, rfl⟩ := step_ackLost_some hst
+    exact h
+  · intro s x s' h hst
+    obtain ⟨rest, _, rfl⟩ := step_storeLost_some hst
+    exact h
   · intro s rid v h; simp only [resStep]; split <;> exact h
   · intro s bad ns h; simp only [saltStep]; split <;> exact h
   · intro s ns h; exact h
@@ -336,7 +348,8 @@ theorem sent_id_unique {s : St} (h : SentSorted s) {id q q' c c' : Nat}
 
 /-! ### adopted salts are saved, in order -/
 
-def StoreOk (s : St) : Prop := s.stored.reverse ++ s.owedStore = s.adopted
+def StoreOk (s : St) : Prop :=
+  s.storeLog.reverse ++ s.owedStore = s.adopted ∧ (s.failedStore = [] → s.stored = s.storeLog)
 
 theorem storeOk_reachable : ∀ s, Reachable s → StoreOk s := by
   apply invariant_of_steps StoreOk
@@ -353,16 +366,30 @@ theorem storeOk_reachable : ∀ s, Reachable s → StoreOk s := by
   · intro s x s' h hst
     obtain ⟨rest, hrest, rfl⟩ := step_store_some hst
     unfold StoreOk at *
-    simp only [List.reverse_cons, List.append_assoc, List.singleton_append]
-    rw [← h, hrest]
+    refine ⟨?_, ?_⟩
+    · simp only [List.reverse_cons, List.append_assoc, List.singleton_append]
+      rw [← h.1, hrest]
+    · intro hf
+      simp only [h.2 hf]
+  · intro s ids s' h hst
+    obtain ⟨_, _, rfl⟩ := step_ackLost_some hst
+    exact h
+  · intro s x s' h hst
+    obtain ⟨rest, hrest, rfl⟩ := step_storeLost_some hst
+    unfold StoreOk at *
+    refine ⟨?_, ?_⟩
+    · simp only [List.reverse_cons, List.append_assoc, List.singleton_append]
+      rw [← h.1, hrest]
+    · intro hf
+      simp at hf
   · intro s rid v h; simp only [resStep]; split <;> exact h
   · intro s bad ns h
     unfold StoreOk at *
     simp only [saltStep]
-    split <;> simp [← h]
+    split <;> exact ⟨by simp [← h.1], h.2⟩
   · intro s ns h
     unfold StoreOk at *
-    simp [newsStep, ← h]
+    exact ⟨by simp [newsStep, ← h.1], h.2⟩
   · intro s bad h; unfold badStep; split <;> exact h
   · intro s h; exact h
   · intro s mid seq h; unfold oweAck; split <;> exact h
